@@ -110,6 +110,23 @@ pub fn run(ctx: &Ctx) {
             }
         }
     }
+    // every small structure (lists of empty lists, tuples of empty tuples ...), bare and placed
+    {
+        let small = crate::genr::small::all_small_values();
+        let stride = ctx.pick(3usize, 1usize);
+        for (i, v) in small.iter().enumerate() {
+            let placed = crate::genr::small::placed(v);
+            for (j, w) in placed.iter().enumerate() {
+                if j > 0 && (i + j) % stride != 0 {
+                    continue;
+                }
+                let mut ch = RandomChooser { rng: &mut rng, legacy_bias: 10, taken: vec![] };
+                if let Ok(b) = ref_encode(w, &mut ch, &opts) {
+                    corpus.push((w.clone(), b));
+                }
+            }
+        }
+    }
     let n_random = ctx.pick(6_000usize, 300_000usize);
     for _ in 0..n_random {
         let cfg = GenCfg { max_depth: 2 + grng.below(5), max_nodes: 4 + grng.below(50), float_keys: true, ..GenCfg::default() };
